@@ -145,6 +145,22 @@ func c05DumpReplays(dir string) {
 		_ = os.WriteFile(filepath.Join(dir, "yaml-yaml-float-notation-int-rounded.json"), b, 0o644)
 	}
 	{
+		// F15: a yaml.v2-style map[interface{}]interface{} for a map[string]string field (entry point "native")
+		mc := c05One(c05Typ{K: "map", E: &c05Typ{K: "string"}}, func(f *c05Fld) { f.Tag = "key" }, c05Obj(c05KV{K: "k", V: c05Str("v")}))
+		mc.EP = "native"
+		for mc.FP = 0; mc.FP < 1000; mc.FP++ {
+			m, _ := c05Native(&mc.D, c05Mix(uint64(mc.FP), 0), true).(map[string]any)
+			if _, ok := m[mc.S[0].key(0)].(map[any]any); ok {
+				break
+			}
+		}
+		raw, _ := json.Marshal(mc)
+		rf := kit.ReplayFile{Property: "C05", Rule: "json", Case: raw,
+			Message: "minimal input of finding generatemap-nonstring-key-panic (repaired): " + c05Describe(&mc)}
+		b, _ := json.MarshalIndent(rf, "", " ")
+		_ = os.WriteFile(filepath.Join(dir, "json-generatemap-nonstring-key-panic.json"), b, 0o644)
+	}
+	{
 		nd := c05NestedDefaultCase()
 		raw, _ := json.Marshal(nd)
 		rf := kit.ReplayFile{Property: "C05", Rule: "json", Case: raw,
